@@ -414,6 +414,34 @@ func c18RegenDebug(root, dir string, fields []string) string {
 			return "differs merge:" + base + ":" + dsErrToken(err)
 		}
 	}
+	if r := c18CompareDicts(debug.IncludedDictionary, dict); !strings.HasPrefix(r, "same") {
+		return r
+	}
+	// the tree's own generate_main.go (built by ./check next to this binary), run on the same files, must
+	// write a file that declares the same IncludedDictionary as the checked-in debug/generated.go
+	if exe, err := os.Executable(); err == nil {
+		tool := filepath.Join(filepath.Dir(exe), "debug-generate")
+		if _, err := os.Stat(tool); err == nil {
+			var local []string
+			for _, f := range files {
+				base := filepath.Base(f)
+				local = append(local, filepath.Join(root, strings.TrimPrefix(base, "dictionary."), base))
+			}
+			cmd := exec.Command(tool, append([]string{"-o", "-"}, local...)...)
+			cmd.Dir = dir
+			out, err := cmd.Output()
+			if err != nil {
+				return "differs the-tree's-generate_main.go-fails:" + dsErrToken(err)
+			}
+			shipped, err := os.ReadFile(filepath.Join(dir, "generated.go"))
+			if err != nil {
+				return "broken " + dsErrToken(err)
+			}
+			if d, _ := c18CompareSources(shipped, out); d != "" {
+				return "differs generate_main.go-output:" + d
+			}
+		}
+	}
 	return c18CompareDicts(debug.IncludedDictionary, dict)
 }
 
